@@ -443,8 +443,18 @@ func doBuiltBoxes(seed uint64) {
 }
 
 func main() {
+	if len(os.Args) >= 2 && os.Args[1] == "corr" {
+		fs := flag.NewFlagSet("corr", flag.ExitOnError)
+		seed := fs.Uint64("seed", 0, "")
+		n := fs.Int("n", 300, "")
+		repo := fs.String("repo", "/repo", "")
+		_ = fs.Parse(os.Args[2:])
+		defer out.Flush()
+		cmdCorr(*seed, *n, *repo)
+		return
+	}
 	if len(os.Args) < 2 || os.Args[1] != "search" {
-		fmt.Fprintln(os.Stderr, "usage: c02 search -seed S -n N")
+		fmt.Fprintln(os.Stderr, "usage: c02 search|corr -seed S -n N")
 		os.Exit(2)
 	}
 	fs := flag.NewFlagSet("search", flag.ExitOnError)
